@@ -268,6 +268,42 @@ func canon(m proto.Message) string {
 	return string(b)
 }
 
+// canonKnown is canon without unknown fields (at any depth): JSON legs cannot carry them and
+// the properties do not ask for it. Used where the compared messages come from arbitrary
+// (fuzzer-made) bytes that may hold unknown field numbers.
+func canonKnown(m proto.Message) string {
+	if m == nil {
+		return "<nil>"
+	}
+	m = proto.Clone(m)
+	stripUnknown(m.ProtoReflect())
+	return canon(m)
+}
+
+func stripUnknown(m protoreflect.Message) {
+	m.SetUnknown(nil)
+	m.Range(func(fd protoreflect.FieldDescriptor, v protoreflect.Value) bool {
+		switch {
+		case fd.IsMap():
+			if fd.MapValue().Message() != nil {
+				v.Map().Range(func(_ protoreflect.MapKey, mv protoreflect.Value) bool {
+					stripUnknown(mv.Message())
+					return true
+				})
+			}
+		case fd.IsList():
+			if fd.Message() != nil {
+				for i := 0; i < v.List().Len(); i++ {
+					stripUnknown(v.List().Get(i).Message())
+				}
+			}
+		case fd.Message() != nil:
+			stripUnknown(v.Message())
+		}
+		return true
+	})
+}
+
 func canonBytes(typeName string, protoBytes []byte) string {
 	m := newMessage(typeName)
 	if err := proto.Unmarshal(protoBytes, m); err != nil {
